@@ -8,7 +8,7 @@
    [enc_ok] is RFC 5280 well-formedness as far as needed (extensions only in v3, key identifiers
    non-empty, pathLenConstraint >= 0, OIDs non-empty) plus: no list item shown contains the list
    separator ", " (see C03_separator_not_escaped).  Subject / issuer text is names.FromRawDN's (C15). *)
-From WI Require Import Lib.Base Lib.Info Lib.Time Model.Cert Model.CertDer Proofs.CertTime Proofs.Cert Proofs.CertDer.
+From WI Require Import Lib.Base Lib.Info Lib.Time Model.Cert Model.CertDer Proofs.CertTime Proofs.Cert Proofs.CertDer Proofs.CertDerCanon.
 From WI Require gen.CertTables.
 From Coq Require Import Permutation.
 Open Scope N_scope.
@@ -333,3 +333,46 @@ Theorem C03_der_example_meets_hypotheses :
   der_ok ex_oracles example_der /\ enc_ok (abstract ex_oracles example_der) = true.
 Proof. exact (conj example_der_ok example_der_enc_ok). Qed.
 Print Assumptions C03_der_example_meets_hypotheses.
+
+(* ---- every well-formed content: the canonical (DER) writer ---- *)
+(* [concrete raw c]: minimal INTEGERs, UTCTime through 2049 and GeneralizedTime from 2050, the shortest
+   BIT STRING, DEFAULT values omitted; [raw] supplies the parts the model leaves to the library.
+   [canon_ok]: enc_ok c, years 0..9999, pathLen < 2^63, OIDs the library can hold, IA5 names and 4/16 octet
+   addresses, other name kinds numbered 256 + identifier octet, the oracles read [raw] as c says, and the
+   whole is shorter than 2^31 octets. *)
+(* decode (encode c) = c *)
+Theorem C03_canonical_roundtrip : forall o raw c, canon_ok o raw c -> abstract o (concrete raw c) = c.
+Proof. exact concrete_abstract. Qed.
+Print Assumptions C03_canonical_roundtrip.
+
+Theorem C03_canonical_octets_parse : forall o raw c, canon_ok o raw c ->
+  parse_certificate_der o (cert_enc (concrete raw c)) = Some (x509_spec c).
+Proof. exact canonical_octets_parse. Qed.
+Print Assumptions C03_canonical_octets_parse.
+
+(* the report printed for the octets DER writes for c is the tree computed from c, and reads back as c *)
+Theorem C03_canonical_octets_faithful : forall o raw c, canon_ok o raw c ->
+  describe_der o (cert_enc (concrete raw c)) = Some (expected_info c) /\
+  match describe_der o (cert_enc (concrete raw c)) with Some i => read_back i | None => None end =
+  Some (canonical_view c).
+Proof. exact canonical_octets_faithful. Qed.
+Print Assumptions C03_canonical_octets_faithful.
+
+(* the three encoders with content: a number of any size, an instant, a bit list of any length *)
+Theorem C03_integer_octets : forall n, nat_content_ok (enc_nat n) = true /\ be_to_N (enc_nat n) = n.
+Proof. exact enc_nat_ok. Qed.
+Print Assumptions C03_integer_octets.
+
+Theorem C03_time_text : forall sec, (0 <= year_of sec < 10000)%Z ->
+  time_ok (time_of sec) /\ time_abs (time_of sec) = sec.
+Proof. exact time_of_ok. Qed.
+Print Assumptions C03_time_text.
+
+Theorem C03_bit_string_octets : forall l,
+  bits_content_ok (bits_unused l) (bits_data l) = true /\ bitstring_bits (bits_unused l) (bits_data l) = l.
+Proof. exact bits_enc_ok. Qed.
+Print Assumptions C03_bit_string_octets.
+
+Theorem C03_canonical_example_meets_hypotheses : canon_ok ex_canon_oracles ex_raw ex_canon_content.
+Proof. exact ex_canon_ok. Qed.
+Print Assumptions C03_canonical_example_meets_hypotheses.
